@@ -402,3 +402,84 @@ package node
 //@   loop 2 invariant p != nil && p.Meta != nil
 //@   loop 2 decreases len(keyStrs) - rangeindex$2
 //@   ensures result1 == nil ==> (forall k int :: 0 <= k && k < len(result0) ==> result0[k] != nil && result0[k].Meta != nil && (len(result0[k].Key) > 0 ==> dyn(result0[k].Meta) == *meta.List))
+
+// ---- C12: the edit protocol seen by node implementations (ghost bookkeeping) ---------------------------------
+// open:     BeginEdit calls that returned nil, minus EndEdit calls
+// failed:   some node callback has returned an error
+// nodeWrites: requests that change data: Field(Write), Child(New|Delete), Next(New|Delete)
+// writesAfterFail: such requests issued when a callback had already failed
+//@ ghost var open int
+//@ ghost var failed bool
+//@ ghost var nodeWrites int
+//@ ghost var writesAfterFail int
+
+//@ interface Node.BeginEdit(r NodeRequest) error
+//@   assigns open, failed
+//@   ensures result == nil ==> open == old(open) + 1 && failed == old(failed)
+//@   ensures result != nil ==> open == old(open) && failed
+//@ interface Node.EndEdit(r NodeRequest) error
+//@   assigns open, failed
+//@   ensures open == old(open) - 1
+//@   ensures failed == (old(failed) || result != nil)
+//@ interface Node.Child(r ChildRequest) (child Node, err error)
+//@   assigns nodeWrites, writesAfterFail, failed
+//@   ensures nodeWrites == old(nodeWrites) + ((r.New || r.Delete) ? 1 : 0)
+//@   ensures writesAfterFail == old(writesAfterFail) + (((r.New || r.Delete) && old(failed)) ? 1 : 0)
+//@   ensures failed == (old(failed) || err != nil)
+//@ interface Node.Next(r ListRequest) (next Node, key []val.Value, err error)
+//@   assigns nodeWrites, writesAfterFail, failed
+//@   ensures nodeWrites == old(nodeWrites) + ((r.New || r.Delete) ? 1 : 0)
+//@   ensures writesAfterFail == old(writesAfterFail) + (((r.New || r.Delete) && old(failed)) ? 1 : 0)
+//@   ensures failed == (old(failed) || err != nil)
+//@ interface Node.Choose(sel *Selection, choice *meta.Choice) (m *meta.ChoiceCase, err error)
+//@   assigns failed
+//@   ensures failed == (old(failed) || err != nil)
+//@ interface Node.Context(sel *Selection) context.Context
+//@   assigns nothing
+//@ interface Node.Release(sel *Selection)
+//@   assigns nothing
+
+// triggers are observers, not nodes: they do not take part in the begin/end bookkeeping
+//@ func (self *TriggerTable) beginEdit(r NodeRequest) error
+//@   trusted
+//@   assigns nothing
+//@ func (self *TriggerTable) endEdit(r NodeRequest) error
+//@   trusted
+//@   assigns nothing
+
+// chain(sel, bubble): how many nodes are told (sel itself and, when bubbling, every ancestor)
+//@ pure chain(s *Selection, bubble bool) int = 1 + ((bubble && s.parent != nil) ? chain(s.parent, bubble) : 0)
+// anc(t, s): t is s or an ancestor of s
+//@ pure anc(t *Selection, s *Selection) bool = s != nil && (s == t || anc(t, s.parent))
+// (by induction on the chain below t; stated as an axiom because SMT solvers do not do induction)
+//@ axiom ancUp: forall t *Selection, s *Selection :: anc(t, s) && t != nil && t.parent != nil ==> anc(t.parent, s)
+// selection chains are finite
+//@ pure selLen(s *Selection) int = s == nil ? 0 : 1 + selLen(s.parent)
+//@ axiom selLenNonNeg: forall s *Selection :: selLen(s) >= 0
+//@ macro wfSel(s *Selection) bool = s != nil && s.Node != nil && s.Browser != nil && s.Browser.Triggers != nil
+//@ pure wfSelChain(s *Selection) bool = s == nil || (s.Node != nil && wfSelChain(s.parent))
+
+//@ func (sel *Selection) beginEdit(r NodeRequest, bubble bool) error
+//@   mode int
+//@   property C12
+//@   requires wfSel(sel) && wfSelChain(sel)
+//@   loop 1 invariant r.Selection != nil && anc(r.Selection, sel) && wfSelChain(r.Selection) && (bubble || r.Selection == sel)
+//@   loop 1 invariant open == old(open) + chain(sel, bubble) - chain(r.Selection, bubble)
+//@   loop 1 invariant failed == old(failed)
+//@   loop 1 decreases selLen(r.Selection)
+//@   loop 2 invariant anc(failedAt, s) && wfSelChain(s) && failedAt != nil && (bubble || s == failedAt)
+//@   loop 2 invariant open == old(open) + chain(s, bubble) - chain(failedAt, bubble)
+//@   loop 2 decreases selLen(s)
+//@   ensures result == nil ==> open == old(open) + chain(sel, bubble) && failed == old(failed)
+//@   ensures result != nil ==> open == old(open)
+
+//@ func (sel *Selection) endEdit(r NodeRequest, bubble bool) error
+//@   mode int
+//@   property C12
+//@   requires wfSel(sel) && wfSelChain(sel)
+//@   loop 1 invariant r.Selection != nil && anc(r.Selection, sel) && wfSelChain(r.Selection)
+//@   loop 1 invariant open == old(open) - chain(sel, bubble) + chain(r.Selection, bubble)
+//@   loop 1 invariant failed == (old(failed) || firstErr != nil)
+//@   loop 1 decreases selLen(r.Selection)
+//@   ensures open == old(open) - chain(sel, bubble)
+//@   ensures failed && !old(failed) ==> result != nil
